@@ -174,7 +174,9 @@ def run(ctx):
                             c2 = subst_closure(cond, {}, clt)
                             conds.append((c2, q.bool_outcome(cb, a, vals)))
                         eq = [c_ for c_, tr in conds if c_[0] == 'bin' and c_[1] == 'Eq' and tr is True and
-                              {('tci' if is_param(x, 3) else 'idx' if x == ('field', ('param', 1, 'self'), '0') else '?') for x in (c_[2], c_[3])} == {'tci', 'idx'}]
+                              {('tci' if is_param(strip_casts(x), 3) else 'idx' if strip_casts(x) == ('field', ('param', 1, 'self'), '0') else '?')
+                               for x in (c_[2], c_[3])} == {'tci', 'idx'} and
+                              all(layout.value_preserving(a_, b_) for x in (c_[2], c_[3]) for a_, b_ in q.casts_on(x)[0])]      # compared widened, never narrowed
                         bg = [c_ for c_, tr in conds if (is_param(c_, 4) and tr is False) or
                               (c_[0] == 'un' and c_[1] == 'Not' and is_param(c_[2], 4) and tr is True)]
                         guard_ok = bool(eq) and bool(bg) and len(conds) == 2
@@ -213,6 +215,22 @@ def run(ctx):
                         desc.append('%s over chunks_exact(%s)' % (show(at[1]), show(src[2][1]) if src[0] == 'call' else '?'))
                         if okm:
                             ok = any(x[0] == 'agg' and x[2] == variant for r_ in rets for x in walk(r_))
+                    if not maps:
+                        # second spelling: for chunk in bytes.chunks_exact(w) { pixels.push(conv(chunk)?); }  Ok(Variant(pixels))
+                        from terms import payload as _payload
+                        for c in [c_ for c_ in q.calls(fb, conv) if c_.bb in reg]:
+                            a0 = q.arg_terms(c)[0]
+                            src = q.unwrap_into_iter(a0[1]) if a0[0] == 'next' else ('unknown',)
+                            okc = src[0] == 'call' and src[1] == 'core::slice::chunks_exact' and q.const_val(src[2][1]) == width and is_param(strip_casts(src[2][0]), 1)
+                            L_ = fb.cfg.loop_of(c.bb)
+                            pushes = [p_ for p_ in q.calls(fb, 'std::vec::Vec::push') if L_ is not None and p_.bb in L_['body'] and
+                                      any(x[0] == 'call' and x[3] == (fb.name, c.bb) for x in walk(q.arg_terms(p_)[1]))]
+                            okl = L_ is not None and len(pushes) == 1 and all(fb.cfg.dominates(pushes[0].bb, x) for x, _ in L_['back_edges']) and \
+                                all(k in ('exhausted', 'err', 'unreachable') for _, _, k in q.loop_exit_kinds(fb, L_))
+                            desc.append('%s over chunks_exact(%s) in a push loop' % (conv.split('::')[-1], show(src[2][1]) if src[0] == 'call' else '?'))
+                            if okc and okl:
+                                vec_t = strip_casts(q.arg_terms(pushes[0])[0])
+                                ok = any(x[0] == 'agg' and x[2] == variant and strip_casts(dict(x[3]).get('0', ('unknown',))) == vec_t for r_ in rets for x in walk(r_))
                 ctx.inst('V', 'from_bytes#' + str(nm), ok, 'from_bytes for %s: %s; must convert %s' % (nm, desc, 'each %d-byte group with %s'
                          % (width, conv.split('::')[-1]) if conv else 'the bytes verbatim as indices'), tm['span'], key='%s|V|%s' % (fb.name, nm))
         else:
